@@ -148,6 +148,14 @@ def run(tape, scenario):
             k = owner.index(gi)
             g.links = [dict(term=k, sm="in" if specs[k]["in_sz"] else "out", pos=0, size="B")]
         g.devices = build_devices(tape, terms, g.links, f"c21/g{gi}")
+        if scenario == "wkc-faults" and tape.chance("c21/random-dropper-in-the-group", 25):
+            # the shipped fake device that drops a share of the frames inside the group's
+            # program (XDP_DROP): what the program did to the frame before still counts
+            from ebpfcat.devices import RandomDropper
+            g.dropper = RandomDropper()
+            g.dropper_rate = tape.pick("c21/drop-rate", [0x2000, 0x8000, 0xffff])
+            g.devices.insert(tape.draw("c21/dropper-position", len(g.devices) + 1), g.dropper)
+            world.count("c21/group-with-random-dropper")
         g.rw = {ln["term"] for ln in g.links if ln["sm"] == "out"}
         g.info = {}
         g.pre = {}
@@ -274,8 +282,15 @@ def run(tape, scenario):
     bus.rx_monitors.append(rx_monitor)
 
     def wkc_fault(no, d, wkc):
-        if scenario != "wkc-faults" or d.cmd == NOP or not cycling[0]:
+        if scenario != "wkc-faults" or not cycling[0]:
             return wkc
+        if d.cmd == NOP:
+            # a write datagram that went round disabled (sterile frame): its counter is
+            # the pre-filled expected value unless something on the ring counted it
+            if d.hdr_pos <= 2 or not tape.chance("fault/wkc-of-a-disabled-datagram", 8):
+                return wkc
+            world.count("fault/wkc-of-disabled-datagram-wrong")
+            return (wkc + 1) & 0xffff
         kind = tape.draw("fault/wkc", 10)
         if kind < 7:
             return wkc
@@ -312,6 +327,8 @@ def run(tape, scenario):
             sg.update_devices = update_devices
             task = sg.start()
             await asyncio.sleep(0)
+            if getattr(g, "dropper", None) is not None:
+                g.dropper.rate = g.dropper_rate
             if task.done():
                 e = task.exception()
                 outcome.append(f"{type(e).__name__}: {e}")
@@ -336,7 +353,7 @@ def run(tape, scenario):
             t += dt
             for g in groups:
                 for dev in g.devices:
-                    for j, ln in enumerate(dev.outs):
+                    for j, ln in enumerate(getattr(dev, "outs", ())):
                         if tape.chance("c21/set", 40):
                             setattr(dev, f"vo{j}", wl.draw_value(tape, ln, "c21")
                                     if not isinstance(ln["size"], int) else tape.draw("c21/bit", 2))
@@ -382,7 +399,7 @@ def run(tape, scenario):
                         for _ in range(8):
                             await asyncio.sleep(0.005)
                             for dev in g.devices:
-                                for j, ln in enumerate(dev.outs):
+                                for j, ln in enumerate(getattr(dev, "outs", ())):
                                     if tape.chance("c21/set", 40):
                                         setattr(dev, f"vo{j}", wl.draw_value(tape, ln, "c21")
                                                 if not isinstance(ln["size"], int)
